@@ -104,4 +104,24 @@ def opAbiError (j : Json) : Json :=
       ("model", match model with | some (i, cv) => Json.mkObj [("index", Json.num i), ("cv", cvJson cv)] | none => Json.null)]
   | _, _ => Json.mkObj [("badtype", true)]
 
+/-- the entry points on arbitrary bytes (C11): call data, event topics/data, revert data -/
+def opAbiRawEntry (j : Json) : Json :=
+  let data := Json.getHex! j "data"
+  match Json.getStr! j "kind" with
+  | "calldata" =>
+    let e := entryOfJson ((j.getObjVal? "entry").toOption.getD Json.null)
+    Json.mkObj [("model", outcomeJson cvJson (decodeCallData e data))]
+  | "event" =>
+    let e := entryOfJson ((j.getObjVal? "entry").toOption.getD Json.null)
+    let topics := match j.getObjVal? "topics" with
+      | .ok (.arr xs) => xs.toList.map (fun x => match x with | .str s => (bytesOfHex? s).getD [] | _ => [])
+      | _ => []
+    Json.mkObj [("model", outcomeJson cvJson (decodeEventData e topics data))]
+  | "error" =>
+    let abi := match j.getObjVal? "abi" with | .ok (.arr xs) => xs.toList.map entryOfJson | _ => []
+    Json.mkObj [("model", match parseError abi data with
+      | some (i, cv) => Json.mkObj [("index", Json.num i), ("cv", cvJson cv)]
+      | none => Json.null)]
+  | _ => Json.mkObj [("bad", "kind")]
+
 end FFS.Driver
